@@ -73,6 +73,7 @@ fn strategy(_t: Tier) -> impl Strategy<Value = Case> {
         1 => Just(AtomChange::Zero),
         1 => Just(AtomChange::Neighbour),
         1 => Just(AtomChange::SmallOrder),
+        2 => Just(AtomChange::Negate),
     ];
     let pv = prop_oneof![
         3 => (any::<u16>(), delta_spec()).prop_map(|(i, d)| ParamVar::Changed(i, d)),
